@@ -70,6 +70,20 @@ CAUGHT.update({"C07b": "C07 quick and C01 quick (after None-valued context entri
 CAUGHT.update({"C17c": "C17 quick and C02 quick (after the strengthening noted)"})
 STRENGTHENED = {"C03", "C04", "C05", "C07", "C08", "C15", "C17", "C05b", "C07b", "C10b", "C11b",
                 "C08c", "C10c", "C11c", "C15c", "C16c", "C17c"}
+def needs_from_notes(notes: str) -> str:
+    """Round 4: the seeding agent's own statement of the condition (NOTES.md), first matching paragraph."""
+    lines = [l.strip() for l in notes.splitlines() if l.strip()]
+    for i, l in enumerate(lines):
+        if re.search(r"condition|to manifest|manifests? (only )?(when|if)|needs", l, re.I) and not l.startswith("#") and len(l) > 40:
+            return re.sub(r"[*`]", "", l)[:400]
+        if re.search(r"^#+ .*(condition|manifest)", l, re.I) and i + 1 < len(lines):
+            return re.sub(r"[*`]", "", " ".join(lines[i + 1:i + 4]))[:400]
+    return re.sub(r"[*`]", "", lines[1] if len(lines) > 1 else "")[:400]
+
+
+STRENGTHENED |= {"C01d", "C03e", "C04d", "C04e", "C05e", "C06e", "C08e", "C09d", "C10e", "C12e", "C16d", "C16e", "C17e", "C18d", "C18e"}
+CAUGHT.update({"C10e": "C07 quick (as a false SER) and C10 quick (after the strengthening noted)",
+               "C12e": "C04 quick and C12 quick (after the strengthening noted)"})
 for pid in sorted(os.listdir(os.path.join(HERE, "seeded"))):
     d = os.path.join(HERE, "seeded", pid)
     vf = os.path.join(d, "verify.json")
@@ -79,10 +93,10 @@ for pid in sorted(os.listdir(os.path.join(HERE, "seeded"))):
     meta = {
         "property": pid[:3],
         "check": pid[:3],
-        "round": {"": 1, "b": 2, "c": 3}[pid[3:]],
+        "round": {"": 1, "b": 2, "c": 3, "d": 4, "e": 4}[pid[3:]],
         "origin": "fresh sub-agent given only the property text and a scratch worktree" + (" (plus the note that registry growth is already known)" if pid == "C18" else ""),
         "summary": first[:300],
-        "needs_to_manifest": NEEDS.get(pid, ""),
+        "needs_to_manifest": NEEDS.get(pid) or needs_from_notes(notes),
         "confirmed_by": "selftest/verify_seeds.sh in a scratch worktree of /repo HEAD under /var/tmp",
         "patch_applies_to_current_head": ver.get("applies"),
         "demo_exit_without_change": ver.get("demo_exit_without_change"),
